@@ -23,6 +23,7 @@ import Pycdlib.Model.Atomic
 import Pycdlib.Model.Cache
 import Pycdlib.Model.Extents
 import Pycdlib.Model.UdfNames
+import Pycdlib.Model.InPlace
 namespace Pycdlib
 
 def parseCps (s : String) : Option (List Nat) :=
@@ -153,6 +154,21 @@ def dispatchPure (toks : List String) : Option String :=
   | ["bit", pvd, fsec, olen, hx] => do
     let b ← ofHex hx
     pure (toHex ((Boot.bootInfoTable (← pvd.toNat?) (← fsec.toNat?) (← olen.toNat?) (b.map (·.toNat))).map fun n => UInt8.ofNat n))
+  | "inplace" :: pvds :: jol :: enh :: ext :: old :: new :: bit :: recs => do
+    -- pvds: extents joined by ','; jol / enh: extent or '-'; recs: d:<parent>:<extents>:<offset>:<len>, u:<extent>:<len>, b
+    let optN : String → Option (Option Nat) := fun t => if t = "-" then some none else (t.toNat?).map some
+    let parseRec : String → Option InPlace.Rec := fun t =>
+      match t.splitOn ":" with
+      | ["d", a, b, c, d] => do pure (.dir (← a.toNat?) (← b.toNat?) (← c.toNat?) (← d.toNat?))
+      | ["u", a, b] => do pure (.udf (← a.toNat?) (← b.toNat?))
+      | ["b"] => some .boot
+      | _ => none
+    let i : InPlace.In := { pvds := ← (pvds.splitOn ",").mapM (·.toNat?), joliet := ← optN jol, enhanced := ← optN enh,
+                            fileExtent := ← ext.toNat?, oldLen := ← old.toNat?, newLen := ← new.toNat?,
+                            recs := ← recs.mapM parseRec, bootInfo := bit = "1" }
+    match InPlace.plan i with
+    | none => pure "refused"
+    | some ws => pure (" ".intercalate (ws.map fun w => s!"{w.1}:{w.2}"))
   | ["udfident", stored, query] => do
     -- code points joined by '.'; answer: encoding, units of the identifier recorded for `stored`, and whether a lookup of
     -- `query` finds it
